@@ -86,7 +86,7 @@ def link_native(harness_bc, runtime_o, out, use_runtime):
     if not vn["ok"]:
         raise HarnessError("verif_native.cpp does not compile:\n" + vn.get("log", ""))
     vobj = vbuild.native_object(vn["bc"])
-    base = [vbuild.CLANGXX, "-o", out, hobj, vobj] + ([runtime_o] + ARROW_LIBS if use_runtime else []) + ["-pthread", "-Wl,--gc-sections"]
+    base = [vbuild.CLANGXX, "-o", out, hobj, vobj] + ([runtime_o] + ARROW_LIBS if use_runtime else []) + ["-pthread", "-ldl", "-Wl,--gc-sections"]
     stubs_src = out + "_missing_stubs.cpp"
     for attempt in range(3):
         cmd = list(base)
